@@ -70,8 +70,9 @@ VerdictC08(q, multi) ==
         zero == IF a = 0 /\ ~q.conj THEN {"0" \o NatStr(b)} ELSE {}
         \* the same words can sometimes be cut differently into two or three standard numbers ("vingt quatre vingts" is 20 80 as well
         \* as 24 20): any segmentation whose lexemes are exactly those of a followed by those of b is a faithful reading
-        pieces == SplitBlank(Rw(multi[1]), 1, "")
-        segOK == /\ ~q.conj /\ Len(pieces) >= 1 /\ Len(pieces) <= 3
+        \* (lexemes are compared modulo the conjunction, as for the fused reading: a conjunction word left in the output is skipped)
+        pieces == SelectSeq(SplitBlank(Rw(multi[1]), 1, ""), LAMBDA w : w # ConjWord[L])
+        segOK == /\ Len(pieces) >= 1 /\ Len(pieces) <= 3
                  /\ \A k \in 1..Len(pieces) : pieces[k] # "" /\ IsDigits(pieces[k]) /\ Len(pieces[k]) <= 2
                                               /\ (Len(pieces[k]) = 1 \/ Ch(pieces[k], 1) # "0")
                  /\ LexCat(L, [k \in 1..Len(pieces) |-> StrNat(pieces[k])]) = Lex99(L, a) \o Lex99(L, b)
